@@ -32,6 +32,8 @@ let engines : (string * (z list -> (z list * z list) list -> verdict)) list = [
   ("storage", chk_storage);
   ("array", chk_array);
   ("health", chk_health);
+  ("codec", chk_codec);
+  ("mapelems", chk_mapelems);
 ]
 
 let () =
